@@ -346,6 +346,9 @@ def r11_4(ctx):
     idx = get_index(ctx.env)
     fi = idx.func("RZILInstruction.__init__")
     needs_flags_valuation(ctx)
+    from .c08 import prologue_checks
+
+    prologue_checks(ctx)
     # every literal in an emission template that mentions hi / pkt does so as a delimited token inside that literal
     classes = set()
     for b in NODE_BASES:
@@ -414,9 +417,13 @@ def r11_6(ctx):
 
 @rule("R11.7", "C11", "register operands are declared exactly when they are used as variables: the initialise table of the READ block and the read table agree for every access class", min_instances=7)
 def r11_7(ctx):
+    from .c07 import assignment_marks_target_written
+    from .c08 import r08_4
     from .c12 import r12_5
 
     r12_5(ctx)
+    assignment_marks_target_written(ctx)  # ... and every form of assignment makes its register target one whose operand is declared
+    r08_4(ctx)  # a routine is called under the name it is declared with
 
 
 @rule("R11.8", "C11", "generated names are C identifiers: a node name embeds another operand only through its C spelling (pure_var / effect_var), and the C spelling of a register replaces the `:` of explicit pairs", min_instances=6)
